@@ -505,7 +505,7 @@ macro_rules! assert_vfs_readlink {
         match $vfs.readlink(&link) {
             Ok(x) => {
                 if x.to_string().unwrap() != $target.to_string().unwrap() {
-                    panic_msg!("assert_vfs_readlink!", "link target doesn't equal given path", &x);
+                    panic_compare_msg!("assert_vfs_readlink!", "link target doesn't equal given path", &x, &link);
                 }
             },
             _ => panic_msg!("assert_vfs_readlink!", "failed while reading link", &link),
@@ -541,7 +541,7 @@ macro_rules! assert_vfs_readlink_abs {
         match $vfs.readlink_abs(&link) {
             Ok(x) => {
                 if target != x {
-                    panic_msg!("assert_vfs_readlink_abs!", "link target doesn't equal given path", &x);
+                    panic_compare_msg!("assert_vfs_readlink_abs!", "link target doesn't equal given path", &x, &link);
                 }
             },
             _ => panic_msg!("assert_vfs_readlink_abs!", "failed while reading link", &link),
